@@ -114,3 +114,58 @@ pub fn dbopen(args: &[String]) {
 }
 
 pub fn topk(_args: &[String]) {}
+
+fn open_disk_index(dir: &str) -> tantivy::Result<tantivy::Index> {
+    use tantivy::tokenizer::{LowerCaser, NgramTokenizer, TextAnalyzer};
+    let index = tantivy::Index::open_in_dir(dir)?;
+    index
+        .tokenizers()
+        .register("ngram", TextAnalyzer::from(NgramTokenizer::new(1, 7, true)).filter(LowerCaser));
+    Ok(index)
+}
+
+/// `dbcount <index dir>`: number of committed documents in an on-disk index.
+pub fn dbcount(args: &[String]) {
+    match open_disk_index(&args[0]).and_then(|i| i.reader()) {
+        Ok(r) => println!("COUNT {}", r.searcher().num_docs()),
+        Err(e) => println!("COUNTERR {}", e.to_string().replace('\n', " ")),
+    }
+}
+
+/// `dbstale <index dir>`: replace the committed documents of an on-disk index by an earlier
+/// "generation" of the data: a withdrawn constant and a revised one.
+pub fn dbstale(args: &[String]) {
+    let run = || -> anyhow::Result<u64> {
+        let index = open_disk_index(&args[0])?;
+        let schema = index.schema();
+        let data = schema.get_field("data").ok_or_else(|| anyhow::anyhow!("no data field"))?;
+        let name = schema.get_field("name").ok_or_else(|| anyhow::anyhow!("no name field"))?;
+        let mut w = index.writer_with_num_threads(1, 50_000_000)?;
+        w.delete_all_documents()?;
+        for (tokens, value, desc) in [
+            (vec!["mass", "vulcan"], "42/1", "Mass of Vulcan (WITHDRAWN)"),
+            (vec!["mass", "earth"], "1/1", "Mass of Earth (OLD VALUE)"),
+            (vec!["population", "atlantis"], "7/1", "Population of Atlantis (WITHDRAWN)"),
+        ] {
+            let c = anything::Constant {
+                source: None,
+                tokens: tokens.iter().map(|t| t.to_string().into_boxed_str()).collect(),
+                description: desc.to_string().into_boxed_str(),
+                value: parse_rat(value),
+                unit: parse_unit_canon("KiloGram:1:0"),
+            };
+            let mut doc = tantivy::Document::default();
+            doc.add_bytes(data, serde_cbor::to_vec(&c)?);
+            for t in &c.tokens {
+                doc.add_text(name, t.as_ref());
+            }
+            w.add_document(doc)?;
+        }
+        w.commit()?;
+        Ok(index.reader()?.searcher().num_docs())
+    };
+    match run() {
+        Ok(n) => println!("STALE {}", n),
+        Err(e) => println!("STALEERR {}", e.to_string().replace('\n', " ")),
+    }
+}
